@@ -308,6 +308,7 @@ class Rig:
         class SessTarget(Target):
             pass
         self.daemon.register(SessTarget, "sess")
+        self._classes = [Target, SessTarget]
         if servertype == "multiplex":
             srv = self.daemon.transportServer
             self.real_selector = srv.selector
@@ -332,6 +333,26 @@ class Rig:
             if time.time() - t0 > WAIT:
                 raise Stuck("released oneway method did not finish")
         self._wait_oneway()
+
+    def _forget_types(self):
+        """Daemon.register() leaves a per-type serializer hook and cache entries behind for every registered class;
+        thousands of short-lived rigs would make every later run slower"""
+        import serpent
+        from Pyro5 import serializers, server
+        for c in getattr(self, "_classes", []):
+            try:
+                serpent.unregister_class(c)
+            except Exception:
+                pass
+            for only_exposed in (True, False):
+                try:
+                    server._reset_exposed_members(c, only_exposed)
+                except Exception:
+                    pass
+            for ser in (serializers.JsonSerializer, serializers.MsgpackSerializer):
+                for name, val in vars(ser).items():
+                    if name.endswith("__type_replacements") and isinstance(val, dict):
+                        val.pop(c, None)
 
     def resource(self, rid):
         with self.lock:
@@ -483,6 +504,7 @@ class Rig:
             if self.servertype == "multiplex":
                 self.daemon.transportServer.selector = self.real_selector
             self.daemon.close()
+            self._forget_types()
         finally:
             from Pyro5 import server as _server
             _server._OnewayCallThread.run = self._orig_oneway_run
@@ -492,7 +514,7 @@ class Rig:
 
 
 # ---- rendering items to bytes ------------------------------------------------------------------
-SER_NAMES = {1: "serpent", 2: "json", 3: "marshal", 4: "msgpack"}
+SER_NAMES = {1: "serpent", 2: "marshal", 3: "json", 4: "msgpack"}
 
 
 def render_msg(m):
@@ -501,7 +523,10 @@ def render_msg(m):
     ser = serializers.serializers_by_id.get(m["ser"])
     body = m["body"]
     flags = protocol.FLAGS_ONEWAY if m.get("oneway") else 0
-    if ser is None or body[0] == "undecodable":
+    if ser is not None and body[0] == "undecodable" and len(body) > 1 and body[1] == "security":
+        # decodes up to a class dict whose tag contains a double underscore: dict_to_class raises SecurityError
+        payload = ser.dumpsCall("target", "run", ({"__class__": "evil__tag"},), {})
+    elif ser is None or body[0] == "undecodable":
         payload = b"\xff\xfe\x00garbage-payload\x01"
     elif body[0] == "handshake":
         _, wf, objknown, val = body
